@@ -9,6 +9,7 @@
 mod fam_access;
 mod fam_admin;
 mod fam_dyn;
+mod fam_bundle;
 mod fam_fee;
 mod fam_init;
 mod fam_pmod;
@@ -94,6 +95,7 @@ pub fn families() -> Vec<Box<dyn Family>> {
     fam_sdk::register(&mut v);
     fam_admin::register(&mut v);
     fam_init::register(&mut v);
+    fam_bundle::register(&mut v);
     v
 }
 
